@@ -28,17 +28,21 @@ func (g *Gen) sqlFrame(nr, nc int) Frame {
 			case g.chance(0.2) || kind == "mixednil":
 				c.Data = append(c.Data, NilCell())
 			case kind == "int":
-				c.Data = append(c.Data, IntCell("int", int64(i*10+j)))
+				c.Data = append(c.Data, IntCell("int", []int64{int64(i*10 + j), 0, -1}[g.r.Intn(3)]))
 			case kind == "int64":
 				c.Data = append(c.Data, IntCell("int64", int64(-i*7+j)))
 			case kind == "str":
 				c.Data = append(c.Data, StrCell([]string{"x", "it's", "a,b", "", "q\"r", "é"}[g.r.Intn(6)]+fmt.Sprint(i)))
 			case kind == "f64":
-				c.Data = append(c.Data, F64Cell(float64(i)+0.25))
+				c.Data = append(c.Data, F64Cell([]float64{float64(i) + 0.25, 0, math.Copysign(0, -1), math.Inf(1), math.NaN()}[g.r.Intn(5)]))
 			case kind == "bool":
 				c.Data = append(c.Data, BoolCell(i%2 == 0))
 			default:
-				c.Data = append(c.Data, TimeCell(time.Date(2020+i, time.Month(1+j), 1+i, i, j, 0, 0, time.UTC)))
+				if g.chance(0.2) {
+					c.Data = append(c.Data, TimeCell(time.Time{})) // the zero time is a value, not NULL
+				} else {
+					c.Data = append(c.Data, TimeCell(time.Date(2020+i, time.Month(1+j), 1+i, i, j, 0, 0, time.UTC)))
+				}
 			}
 		}
 		if g.chance(0.08) && nr > 0 {
@@ -351,8 +355,9 @@ func planC14(g *Gen, tier string) ([]SQLCase, map[string]int, bool) {
 			}
 		}
 		sortKVs(m)
+		odd := []string{"bogus", "skip_rows", "skip_row ", "no_skip_row", "Nil", "ZERO", "", " nil", "zero_value", "skip"}
 		return []Handler{{Kind: "default"}, {Kind: "string", S: "nil"}, {Kind: "string", S: "zero"}, {Kind: "string", S: "skip_row"},
-			{Kind: "map", M: m}, {Kind: "string", S: "bogus"}, {Kind: "other"}}
+			{Kind: "map", M: m}, {Kind: "string", S: BStr(odd[g.r.Intn(len(odd))])}, {Kind: "other"}}
 	}
 	// exhaustive NULL patterns on small result sets x every handler kind
 	dim := scale(tier, 2, 3)
